@@ -95,7 +95,6 @@ theorem mul_le_mul_right_nonneg {A X Y P Q : Ext} (h : le A X) (hy : le (.fin 0)
     | (rcases hp with ⟨a1, rfl⟩ | ⟨a1, rfl⟩ <;> rcases hq with ⟨a2, rfl⟩ | ⟨a2, rfl⟩ <;> simp [le] <;> omega)
     | (rcases hp with ⟨a1, rfl⟩ | ⟨a1, rfl⟩ <;> simp [le] <;> omega)
     | (rcases hq with ⟨a1, rfl⟩ | ⟨a1, rfl⟩ <;> simp [le] <;> omega)
-    | (trace_state; sorry)
 
 /-- multiplication by a non-positive factor reverses the order -/
 theorem mul_le_mul_right_nonpos {A X Y P Q : Ext} (h : le A X) (hy : le Y (.fin 0))
@@ -109,7 +108,6 @@ theorem mul_le_mul_right_nonpos {A X Y P Q : Ext} (h : le A X) (hy : le Y (.fin 
     | (rcases hp with ⟨a1, rfl⟩ | ⟨a1, rfl⟩ <;> rcases hq with ⟨a2, rfl⟩ | ⟨a2, rfl⟩ <;> simp [le] <;> omega)
     | (rcases hp with ⟨a1, rfl⟩ | ⟨a1, rfl⟩ <;> simp [le] <;> omega)
     | (rcases hq with ⟨a1, rfl⟩ | ⟨a1, rfl⟩ <;> simp [le] <;> omega)
-    | (trace_state; sorry)
 
 theorem mul_le_mul_left_nonneg {A P Q U V : Ext} (h : le P Q) (ha : le (.fin 0) A)
     (hu : mul A P = some U) (hv : mul A Q = some V) : le U V := by
